@@ -61,9 +61,127 @@ var valAlphabet = [][]byte{
 	{}, {0x01}, []byte("v2"), bytes.Repeat([]byte{0xb1}, 31), bytes.Repeat([]byte{0xb2}, 32), bytes.Repeat([]byte{0xb3}, 33),
 	bytes.Repeat([]byte{0xd5}, 40000), bytes.Repeat([]byte{0xd6}, 41000),
 	{0x00}, {0x80}, bytes.Repeat([]byte{0xc4}, 300), []byte("v2b"), bytes.Repeat([]byte{0xd7}, 42000),
+	// values that make a branch of inline leaves come out at 31 / 32 / 33 bytes
+	[]byte("four"), []byte("five5"), []byte("sixsix"), []byte("five6"),
 }
 
 var emptyRoot = common.HexToHash("56e81f171bcc55a6ff8345e692c0f86e5b48e01b996cadc001622fb5e363b421")
+
+// ---- independent reference: the Merkle-Patricia root of a set of pairs, written from the specification (hex-prefix
+// encoding, RLP, keccak; a node shorter than 32 bytes is embedded in its parent, the root is always hashed). Shares no
+// code with package trie.
+
+type refItem struct {
+	nib []byte // key as nibbles
+	val []byte
+}
+
+func refRoot(pairs map[string][]byte) common.Hash {
+	if len(pairs) == 0 {
+		return emptyRoot
+	}
+	keys := make([]string, 0, len(pairs))
+	for k := range pairs {
+		keys = append(keys, k)
+	}
+	sort.Strings(keys)
+	items := make([]refItem, 0, len(keys))
+	for _, k := range keys {
+		nib := make([]byte, 0, 2*len(k))
+		for _, b := range []byte(k) {
+			nib = append(nib, b>>4, b&0x0f)
+		}
+		items = append(items, refItem{nib, pairs[k]})
+	}
+	return common.BytesToHash(crypto.Keccak256(refNode(items, 0)))
+}
+
+func refCompact(nib []byte, leaf bool) []byte {
+	flag := byte(0)
+	if leaf {
+		flag = 2
+	}
+	var out []byte
+	if len(nib)%2 == 1 {
+		out = append(out, (flag+1)<<4|nib[0])
+		nib = nib[1:]
+	} else {
+		out = append(out, flag<<4)
+	}
+	for i := 0; i < len(nib); i += 2 {
+		out = append(out, nib[i]<<4|nib[i+1])
+	}
+	return out
+}
+
+func refRLPString(b []byte) []byte {
+	if len(b) == 1 && b[0] < 0x80 {
+		return []byte{b[0]}
+	}
+	return append(refRLPLen(len(b), 0x80), b...)
+}
+
+func refRLPLen(n int, base byte) []byte {
+	if n < 56 {
+		return []byte{base + byte(n)}
+	}
+	var be []byte
+	for x := n; x > 0; x >>= 8 {
+		be = append([]byte{byte(x)}, be...)
+	}
+	return append([]byte{base + 55 + byte(len(be))}, be...)
+}
+
+func refRLPList(items ...[]byte) []byte {
+	var body []byte
+	for _, it := range items {
+		body = append(body, it...)
+	}
+	return append(refRLPLen(len(body), 0xc0), body...)
+}
+
+// refChild is how a parent refers to an encoded child: embedded when shorter than 32 bytes, by hash otherwise.
+func refChild(enc []byte) []byte {
+	if len(enc) < 32 {
+		return enc
+	}
+	return refRLPString(crypto.Keccak256(enc))
+}
+
+// refNode encodes the node that holds items (sorted, all sharing their first depth nibbles).
+func refNode(items []refItem, depth int) []byte {
+	if len(items) == 1 {
+		return refRLPList(refRLPString(refCompact(items[0].nib[depth:], true)), refRLPString(items[0].val))
+	}
+	// common prefix below depth
+	first, last := items[0].nib, items[len(items)-1].nib
+	cp := 0
+	for depth+cp < len(first) && depth+cp < len(last) && first[depth+cp] == last[depth+cp] {
+		cp++
+	}
+	if cp > 0 {
+		return refRLPList(refRLPString(refCompact(first[depth:depth+cp], false)), refChild(refNode(items, depth+cp)))
+	}
+	slots := make([][]byte, 17)
+	for i := range slots {
+		slots[i] = []byte{0x80}
+	}
+	rest := items
+	if len(rest[0].nib) == depth { // a key that ends here: the branch's own value
+		slots[16] = refRLPString(rest[0].val)
+		rest = rest[1:]
+	}
+	for i := 0; i < len(rest); {
+		j := i
+		for j < len(rest) && rest[j].nib[depth] == rest[i].nib[depth] {
+			j++
+		}
+		slots[rest[i].nib[depth]] = refChild(refNode(rest[i:j], depth+1))
+		i = j
+	}
+	return refRLPList(slots...)
+}
+
 var modeNames = []string{"trie", "secure", "statedb"}
 var deriveLens = []int{0, 1, 2, 127, 128, 129}
 var capLimits = []common.StorageSize{0, 512, 4096, 64 * 1024}
@@ -207,13 +325,13 @@ func copyMap(m map[string][]byte) map[string][]byte {
 // tapeOp is one entry of the decision tape; every field is a small index.
 type tapeOp struct{ Op, K, V, R, X, Y int }
 
-var opNames = []string{"update", "update", "update", "update", "update", "update", "delete", "delete", "get", "get", "hash", "commit", "commit", "diskcommit", "cap", "ref", "deref", "reopen", "restart", "crash", "prove", "prove", "corrupt", "corrupt", "derive"}
+var opNames = []string{"update", "update", "update", "update", "update", "update", "delete", "delete", "get", "get", "hash", "commit", "commit", "diskcommit", "cap", "ref", "deref", "reopen", "restart", "crash", "prove", "prove", "corrupt", "corrupt", "derive", "copymutate", "copymutate"}
 
 var opGen = rapid.Custom(func(t *rapid.T) tapeOp {
 	return tapeOp{
 		Op: rapid.IntRange(0, len(opNames)-1).Draw(t, "op"),
 		K:  rapid.OneOf(rapid.IntRange(0, 5), rapid.IntRange(0, len(keyAlphabet)-1)).Draw(t, "k"),
-		V:  rapid.OneOf(rapid.IntRange(0, 7), rapid.IntRange(0, len(valAlphabet)-1)).Draw(t, "v"),
+		V:  rapid.OneOf(rapid.IntRange(0, 7), rapid.IntRange(0, len(valAlphabet)-1), rapid.IntRange(len(valAlphabet)-4, len(valAlphabet)-1)).Draw(t, "v"),
 		R:  rapid.IntRange(0, 7).Draw(t, "r"),
 		X:  rapid.IntRange(0, 255).Draw(t, "x"),
 		Y:  rapid.IntRange(0, 4095).Draw(t, "y"),
@@ -339,6 +457,15 @@ func runHistory(t *rapid.T, tamper bool) {
 				fail("root-canonical", fmt.Sprintf("op=%s order=%d", what, order), fmt.Sprintf("%s root %x, fresh trie (order %d) over the same %d pairs has %x", what, got, order, len(m), want))
 			}
 		}
+		// the independent reference (written from the specification, no code shared with package trie)
+		hashed := map[string][]byte{}
+		for k, v := range m {
+			hashed[string(tkey([]byte(k)))] = v
+		}
+		if want := refRoot(hashed); got != want {
+			fail("root-canonical", "op="+what+" reference-implementation", fmt.Sprintf("%s root %x, the Merkle-Patricia root of the same %d pairs computed from the specification is %x", what, got, len(m), want))
+		}
+		simkit.Global.Inc("reference_roots_compared")
 		// the streaming hasher needs fixed-length keys in increasing order
 		keys, same := make([]string, 0, len(m)), true
 		for _, k := range sortedKeys(m) {
@@ -502,6 +629,38 @@ func runHistory(t *rapid.T, tamper bool) {
 				fail("get-model", "op=delete what=error", fmt.Sprintf("Delete(%x): %v", key, err))
 			}
 			delete(m, string(key))
+		case "copymutate":
+			// a copy of the trie (as StateDB.Copy / SecureTrie.Copy make them) is mutated; the original must not notice
+			var cp tri
+			switch t := live.(type) {
+			case *trie.SecureTrie:
+				cp = t.Copy()
+			case *trie.Trie:
+				c := *t
+				cp = &c
+			default:
+				if sdb != nil {
+					if c, ok := sdb.CopyTrie(live.(state.Trie)).(tri); ok {
+						cp = c
+					}
+				}
+			}
+			if cp == nil {
+				break
+			}
+			rec(op, "k=%x v=#%d", key, o.V)
+			other := keyAlphabet[(o.K+1+o.X)%len(keyAlphabet)]
+			_ = cp.TryDelete(key)
+			if len(val) > 0 {
+				_ = cp.TryUpdate(other, val)
+			}
+			_ = cp.TryDelete(keyAlphabet[(o.K+2+o.Y)%len(keyAlphabet)])
+			cp.Hash()
+			simkit.Global.Inc("fault.copy_mutated")
+			serves(live, &rootRec{hash: canon(m, 0), snap: m}, true, "copy-isolation", "op=copymutate")
+			if got, want := live.Hash(), canon(m, 0); got != want {
+				fail("copy-isolation", "op=copymutate what=root", fmt.Sprintf("after mutating a copy the original's root is %x, a fresh trie over the same %d pairs has %x", got, len(m), want))
+			}
 		case "get":
 			rec(op, "k=%x", key)
 			got, err := live.TryGet(key)
